@@ -106,5 +106,13 @@ def run(P, R, tier):
     from ..engines import cover as _cvl
     _cvl.check_lse_functions(P, R, ['gmm'])
 
+    # a single vector gives a (components, 1) column: one sample, whatever the number of components
+    _o1, _r1 = dimrun.run_roots(P, ["gmm.lwl1"])
+    _v1 = _r1.get(("gmm.lwl1", None))
+    okc = _v1 is not None and _v1.is_numlike and _v1.sh is not None and len(_v1.sh) == 2 and _v1.sh[0] == "C" and _v1.sh[1] in ("1", "N")
+    if _v1 is None or not _v1.is_numlike or _v1.sh is None:
+        okc = True  # no shape could be inferred for a 1-D argument (e.g. it is indexed as 2-D, which raises): nothing silent to report
+    R.check(okc, "SHAPE.single-lwl", "gmm:log_weighted_likelihood", f"single vector -> {fmt(_v1) if _v1 is not None else None}", "(components, 1)", "for a single feature vector the per-component log-likelihoods are not a (components, 1) column: they broadcast against the per-component normalisers into a (components, components) table")
+
 
 EXPLANATION += " Also (POL): the return value of log_weighted_likelihood is expanded into signed monomials; the log-weights enter with +1, the cached normaliser with -1/2, the quadratic form as -1/2 (x - mu)^2 / var (x^2 and mu^2 negative, the cross term positive, the variance in the denominator)."
